@@ -195,6 +195,8 @@ def t1(ctx):
                "to 'mask = leaves below' is lemmas/Clades.lean")
     for c in CONTRACTS:
         verify_contract(ctx, SUITE, c, sentinels=False, replay=replay_encode)
+    from contracts import _wf
+    _wf.validate(ctx)
     from dpvc import lean
     hyp = "the labelling satisfies the local equations on every visited edge: Tree.encode_bipartitions.loop0.after[local-equations] (z3)"
     lean.check_lemma(ctx, "Clades.lean", ["local_equations_unique", "encodings_agree", "leaves_subset_root"],
